@@ -1,1 +1,35 @@
-// hooks for src/extractor.rs
+// hooks for src/extractor.rs (private Extractor::is_confined)
+#![allow(dead_code, unused_imports)]
+use super::*;
+
+// EXTR/Extractor::is_confined is ASSUMED in Verus (Path::components().all(..)).  This native check runs the REAL function on
+// every path of up to 4 segments over {name, "..", ".", ""} with and without a leading '/', against a string-level oracle:
+// confined <=> relative and no ".." segment.   (C04; bounded-exhaustive validation of a trusted shim, not a proof)
+#[cfg(all(test, rdest_verif))]
+mod native {
+    use super::*;
+    #[test]
+    fn native_is_confined_small_paths() {
+        let segs = ["a", "..", ".", "b.txt"];
+        let mut count = 0;
+        for len in 1..=4usize {
+            let total = segs.len().pow(len as u32);
+            for code in 0..total {
+                let mut parts = vec![];
+                let mut c = code;
+                for _ in 0..len { parts.push(segs[c % segs.len()]); c /= segs.len(); }
+                for lead in ["", "/"] {
+                    let s = format!("{}{}", lead, parts.join("/"));
+                    let expect = lead.is_empty() && !parts.iter().any(|p| *p == "..");
+                    assert_eq!(Extractor::is_confined(Path::new(&s)), expect, "path {:?}", s);
+                    count += 1;
+                }
+            }
+        }
+        assert!(count == 2 * (4 + 16 + 64 + 256));
+        // joined the way Metainfo::file_piece_ranges does it: an absolute file path replaces the directory
+        assert!(!Extractor::is_confined(&std::path::PathBuf::from("name").join("/etc/passwd")));
+        assert!(!Extractor::is_confined(&std::path::PathBuf::from("../name").join("x")));
+        assert!(Extractor::is_confined(&std::path::PathBuf::new().join("file.bin")));
+    }
+}
